@@ -294,6 +294,13 @@ def gen_sort(rng, n, tier):
         if rng.random() < 0.3:                      # instants spread over decades (both sides of 2000, month and year ends) instead of a few seconds
             Y = [0, 86400 * 365, 946684800 - 2, 946684800, 946684801, 1514764800, 1546300800 + 86400 * 58, 1893456000, 3124224000 - 1]
             ts = [rng.choice(Y) * 1000 + rng.choice([0, 0, 500, 1000, 61000]) for _ in range(k)]
+        if rng.random() < 0.15:
+            # a recording across a month end (or a day end): late evening of the last day, early morning of the next; the time of day decreases while the instant increases
+            import datetime as _dt
+            y = rng.choice([1999, 2020, 2024, 2031]); m = rng.choice([1, 2, 3, 7, 8, 12, 4])
+            first = _dt.datetime(y + (m == 12), m % 12 + 1, 1)
+            base = int((first - _dt.datetime(1970, 1, 1)).total_seconds())
+            ts = [(base + rng.choice([-20, -3600, -1, 0, 10, 3600 * 5, -86400, 86400 - 5, -86400 - 7])) * 1000 + rng.choice([0, 500]) for _ in range(k)]
         how = rng.choice(['sort', 'sort', 'radix'])
         if how == 'sort' and rng.random() < 0.15:   # archive data: instants before 1970 (the timestamps are calendar dates; sort() orders them as such)
             ts = [rng.choice([-86400 * 365 * 15, -86400 * 365 * 8 - 86400 * 40, -86400 * 300, -1, 0, 86400 * 200]) * 1000 + rng.choice([0, 1000, 500]) for _ in range(k)]
